@@ -107,6 +107,71 @@ func loopCondGens() []gen {
 	return out
 }
 
+// loopBodyGens: loop bodies of two and three statements over guard clauses (`if c { break }`,
+// `if c { continue }`, `if c { return }`) and plain statements, in the three loop forms, with
+// nothing / a return after the loop: the return analysis has to keep the edge of every guard.
+func loopBodyGens(maxLen int) []gen {
+	at := atoms(true)
+	var parts []gen
+	for _, a := range at {
+		a := a
+		parts = append(parts, a, gen{desc: "if{" + a.desc + "}", mk: func(n *int) []fl.Stmt { return []fl.Stmt{&fl.If{Cond: fl.B("<", x(), c(1)), Then: a.mk(n)}} }})
+	}
+	var bodies []gen
+	var rec func(pre gen, k int)
+	rec = func(pre gen, k int) {
+		if k >= 2 {
+			bodies = append(bodies, pre)
+		}
+		if k == maxLen {
+			return
+		}
+		for _, p := range parts {
+			p, pre := p, pre
+			d := p.desc
+			if pre.desc != "" {
+				d = pre.desc + ";" + p.desc
+			}
+			rec(gen{desc: d, mk: func(n *int) []fl.Stmt {
+				var o []fl.Stmt
+				if pre.mk != nil {
+					o = pre.mk(n)
+				}
+				return append(o, p.mk(n)...)
+			}}, k+1)
+		}
+	}
+	rec(gen{}, 0)
+	var out []gen
+	for _, b := range bodies {
+		for _, after := range []string{"", "ret"} {
+			b, after := b, after
+			tail := func(n *int, st []fl.Stmt) []fl.Stmt {
+				if after == "ret" {
+					return append(st, retStmt(n))
+				}
+				return st
+			}
+			sfx := ""
+			if after != "" {
+				sfx = ";" + after
+			}
+			out = append(out,
+				gen{desc: "whiletrue{" + b.desc + "}" + sfx, mk: func(n *int) []fl.Stmt {
+					return tail(n, []fl.Stmt{&fl.Let{Name: "i", T: fl.I32, Init: c(0)}, &fl.While{Cond: &fl.BoolLit{V: true}, Body: append([]fl.Stmt{&fl.IncDec{LHS: fl.V("i"), Inc: true},
+						&fl.If{Cond: fl.B(">", fl.V("i"), c(3)), Then: []fl.Stmt{retStmt(n)}}}, b.mk(n)...)}})
+				}},
+				gen{desc: "while{" + b.desc + "}" + sfx, mk: func(n *int) []fl.Stmt {
+					return tail(n, []fl.Stmt{&fl.Let{Name: "i", T: fl.I32, Init: c(0)}, &fl.While{Cond: fl.B("<", fl.V("i"), x()), Body: append([]fl.Stmt{&fl.IncDec{LHS: fl.V("i"), Inc: true}}, b.mk(n)...)}})
+				}},
+				gen{desc: "for{" + b.desc + "}" + sfx, mk: func(n *int) []fl.Stmt {
+					return tail(n, []fl.Stmt{&fl.Let{Name: "lo", T: fl.I32, Init: c(0)}, &fl.ForRange{Var: "i", Lo: fl.V("lo"), Hi: x(), Body: b.mk(n)}})
+				}})
+		}
+	}
+	return out
+}
+
 func x() fl.Expr          { return fl.V("x") }
 func c(v int64) fl.Expr   { return fl.L(fl.I32, v) }
 func retStmt(n *int) fl.Stmt {
@@ -376,6 +441,7 @@ func Run(ctx *vl.Ctx) {
 	gens := blocks(depth, false, 2)
 	gens = append(gens, enumMatchGens()...)
 	gens = append(gens, loopCondGens()...)
+	gens = append(gens, loopBodyGens(map[bool]int{true: 2, false: 3}[quick])...)
 	type item struct {
 		id       string
 		p        *fl.Program
